@@ -703,8 +703,12 @@ def main(argv):
     env.base_ntypes = ufl.classes.Expr._ufl_num_typecodes_
     env.nstep = 0
     outs = []
+    import time
+
     for st in steps:
+        t0 = time.perf_counter()
         outs.append(do_step(st, env))
+        outs[-1]["dt"] = round(time.perf_counter() - t0, 4)
     print("C20RESULT " + json.dumps({"steps": outs, "ntypes": env.base_ntypes}))
     return 0
 
